@@ -308,6 +308,10 @@ func (f *file) writeBlobAt(op string, p blob.Blob, off int64) (n int, err error)
 		off = int64(f.Size())
 	}
 
+	if p.Len() == 0 && off >= 0 {
+		// nothing to write, don't grow the file up to 'off'
+		return 0, nil
+	}
 	endIndex := off + int64(p.Len())
 	if int64(f.Size()) < endIndex {
 		data, err := f.Data()
